@@ -10,8 +10,9 @@
 EXTENDS SCSched
 
 TracesS == ndJsonDeserialize("traces.ndjson")
-VARIABLES ti, l, ent, stopped, epv, dep, pq
-tsvars == <<svars, ti, l, ent, stopped, epv, dep, pq>>
+VARIABLES ti, l, ent, stopped, epv, dep, pq,
+          exq        \* states whose exit has begun (tasks cancelled, or an exit action run) and that were not re-entered since
+tsvars == <<svars, ti, l, ent, stopped, epv, dep, pq, exq>>
 
 ToSetS(q) == {q[i] : i \in 1..Len(q)}
 OutOfS(jo) == [i \in 1..Len(jo) |->
@@ -32,11 +33,26 @@ EpAfter(o, i, g) ==
                                      IF x = o[i].a THEN g.ep[InvOwner(o[i].a)] ELSE @[x]]])
   ELSE EpAfter(o, i + 1, g)
 
-TInit == /\ ti \in 1..Len(TracesS) /\ l = 0 /\ mi = TracesS[ti].mi
+\* A notification (timer expiry, service outcome) produced for an owner whose exit has already begun: the owner's
+\* tasks are cancelled BEFORE its exit actions run, so nothing of the activation being left may still report.
+RECURSIVE ExitWalk(_, _, _, _)
+ExitWalk(o, i, q, acc) ==        \* returns [q, c08, c09]
+  IF i > Len(o) THEN [q |-> q, c08 |-> acc.c08, c09 |-> acc.c09]
+  ELSE LET e == o[i] IN
+       IF e.k = "cancel" THEN ExitWalk(o, i + 1, q \cup {e.a}, acc)
+       ELSE IF e.k = "act" /\ e.a \in DOMAIN D.actInfo /\ D.actInfo[e.a].sec = "exit" THEN ExitWalk(o, i + 1, q \cup {D.actInfo[e.a].owner}, acc)
+       ELSE IF e.k \in {"sched", "rearm"} THEN ExitWalk(o, i + 1, q \ {e.a}, acc)     \* (re-)entered, or restored by a rollback
+       ELSE IF e.k = "timer_fired" /\ e.a \in q
+            THEN ExitWalk(o, i + 1, q, [acc EXCEPT !.c08 = @ \cup {"timer_fired_after_owner_began_to_exit"}])
+       ELSE IF e.k \in {"svc_done", "svc_error"} /\ e.a \in AllInvIds /\ InvOwner(e.a) \in q
+            THEN ExitWalk(o, i + 1, q, [acc EXCEPT !.c09 = @ \cup {"service_outcome_after_owner_began_to_exit"}])
+       ELSE ExitWalk(o, i + 1, q, acc)
+
+TInit == /\ ti \in 1..Len(TracesS) /\ l = 0 /\ mi = TracesS[ti].mi /\ exq = {}
          /\ epv = [s \in Machines[TracesS[ti].mi].states |-> 0] /\ dep = <<>> /\ pq = <<>>
          /\ ent = [s \in Machines[TracesS[ti].mi].states |-> 0] /\ stopped = FALSE
          /\ status = "" /\ config = {} /\ hist = <<>> /\ ctx = <<>> /\ output = "" /\ queue = <<>> /\ now = 0
-         /\ timers = {} /\ svcs = {} /\ busy = 0 /\ busySeq = 0 /\ seq = 0 /\ deferred = <<>> /\ ghost = <<>> /\ out = <<>>
+         /\ timers = {} /\ svcs = {} /\ busy = 0 /\ busySeq = 0 /\ seq = 0 /\ deferred = <<>> /\ susp = <<>> /\ ghost = <<>> /\ out = <<>>
          /\ lastStep = <<>>
 TNext == /\ l < Len(TracesS[ti].steps) /\ l' = l + 1
          /\ LET j == TracesS[ti].steps[l'] IN
@@ -44,6 +60,7 @@ TNext == /\ l < Len(TracesS[ti].steps) /\ l' = l + 1
               /\ stopped' = (stopped \/ j.op = "stop")
               /\ pq' = IF "queue" \in DOMAIN j THEN j.queue ELSE <<>>
               /\ LET g == EpAfter(OutOfS(j.out), 1, [ep |-> epv, doneEp |-> dep]) IN epv' = g.ep /\ dep' = g.doneEp
+              /\ exq' = ExitWalk(OutOfS(j.out), 1, exq, [c08 |-> {}, c09 |-> {}]).q
          /\ UNCHANGED <<svars, ti>>
 TSpec == TInit /\ [][TNext]_tsvars
 
@@ -52,6 +69,7 @@ TVerdict ==
       o == OutOfS(j.out)
   IN [ti |-> ti, l |-> l', tag |-> TracesS[ti].tag,
       C09 |-> C09Walk(o, 1, [ep |-> epv, doneEp |-> dep, cur |-> ""], {})
+              \cup ExitWalk(o, 1, exq, [c08 |-> {}, c09 |-> {}]).c09
               \cup (IF "svcs" \in DOMAIN j THEN
                       Tag(\A x \in 1..Len(j.svcs) : j.svcs[x][1] \in ToSetS(j.config) /\ j.status # "stopped",
                           "service_alive_after_exit_or_stop")
@@ -71,6 +89,16 @@ TVerdict ==
                                            "activity_after_stop") ELSE {})
                ELSE {}),
       C08 |-> C08Walk(o, 1, j.t, [entered |-> ent, sel |-> ent, fired |-> {}], {})
+              \cup ExitWalk(o, 1, exq, [c08 |-> {}, c09 |-> {}]).c08
+              \* an expiry that ARRIVED in the queue during this step although its owner's exit had begun before the step
+              \* (the recorder does not see the expiry itself; the queue is observed after every driver step)
+              \cup (IF "queue" \in DOMAIN j THEN
+                      Tag(\A x \in AfterTrans :
+                            LET ty == D.trans[x].key
+                                cnt(q) == Cardinality({i \in 1..Len(q) : q[i] = ty})
+                            IN (D.trans[x].src \in exq) => cnt(j.queue) <= cnt(pq),
+                          "timer_fired_after_owner_began_to_exit")
+                    ELSE {})
               \cup (IF stopped THEN Tag(\A i \in 1..Len(o) : o[i].k \notin {"on_transition", "act", "event"}, "activity_after_stop")
                     ELSE {})]
 TEmit == PrintT(ToJson(TVerdict))
